@@ -28,7 +28,7 @@ CFG = dict(
     exhaustive={"quick": False, "thorough": False},
     exhaustive_domain={
         "quick": ("complete over: axis length 0..9 x across 0..4, kernel sizes 1..7 (fixed 1,3,5,7) x every centre, 5 options, "
-                  "8 functions, 9 regimes (4 same-layout, 5 with differing source/accumulator/destination channel order); convolve_2d shapes 0..6^2, n 1..5 every (cy,cx); extend_* shapes 1..6^2, count 0..3. "
+                  "8 functions, 13 regimes (4 same-layout, 5 with differing source/accumulator/destination channel order, 4 with accumulator type == pixel type run both out of place and in place); convolve_2d shapes 0..6^2, n 1..5 every (cy,cx); extend_* shapes 1..6^2, count 0..3. "
                   "Image contents and kernel taps are seeded samples."),
         "thorough": ("axis length 0..16 x across 0..6, kernel sizes 1..11 (fixed 1,3,5,7); convolve_2d shapes 0..9^2, n 1..7; "
                      "extend_* shapes 1..9^2, count 0..5; contents seeded, 3 repetitions per 1-D tuple"),
@@ -40,9 +40,15 @@ CFG = dict(
            "mixed channel orders, compared per colour: bgr8 -> pixel<float,rgb> -> rgb32f; rgb8 -> pixel<float,rgb> -> bgr32f; "
            "bgr8 -> pixel<float,rgb> -> bgr32f; rgba8 -> pixel<float,rgba> -> abgr32f; planar rgb8 -> pixel<float,rgb> -> bgr32f",
            "convolve_2d with mixed channel orders: bgr8->rgb32f, rgba8->abgr32f, planar rgb8->bgr32f",
+           "accumulator == source == destination pixel type, out of place and in place (same view as source and destination): "
+           "gray8 with gray8_pixel_t accumulator (sums modulo 256), gray32s with gray32s_pixel_t, gray32f with gray32f_pixel_t "
+           "(tolerance), rgb32f with pixel<float,rgb>",
            "convolve_2d: gray8->gray32f, rgb8->rgb32f with detail::kernel_2d<float>, detail::kernel_2d_fixed<float,3|5>",
            "extend_row/col/boundary: gray8, rgb8"],
-    assumptions=["channels pair by colour, not by memory position, whenever source, accumulator and destination layouts differ "
+    assumptions=["in place means exactly the same view as source and destination (as detail::convolve_1d / box_filter do for their "
+                 "second pass); partially overlapping views are not promised and not exercised; convolve_2d is not run in place",
+                 "an unsigned 8-bit accumulator computes modulo 256 (well-defined unsigned narrowing); the oracle reduces its exact sum modulo 256",
+                 "channels pair by colour, not by memory position, whenever source, accumulator and destination layouts differ "
                  "(GIL's convention for pixel operations; the functions only require compatible colour spaces)",
                  "integer regimes are compared exactly (all intermediate values < 2^24); the float regime with tolerance "
                  "1e-5*sum|k|*max|src| (1-D) and 1e-4*sum|k|*255 (convolve_2d, fractional kernels)",
@@ -56,13 +62,16 @@ CFG = dict(
          tu("c15_p2", _SRC, "asan", extra=NONULL + ["-DC15_PART=2"], deps=_DEPS),
          tu("c15_p3", _SRC, "asan", extra=["-DC15_PART=3"], deps=_DEPS)]
         # mixed channel orders (1-D: parts 4..8, convolve_2d: part 9)
-        + [tu("c15_p%d" % k, _SRC, "asan", extra=NONULL + ["-DC15_PART=%d" % k], deps=_DEPS) for k in range(4, 10)],
+        + [tu("c15_p%d" % k, _SRC, "asan", extra=NONULL + ["-DC15_PART=%d" % k], deps=_DEPS) for k in range(4, 10)]
+        # accumulator type == pixel type, out of place and in place (source view == destination view): parts 10..13
+        + [tu("c15_p%d" % k, _SRC, "asan", extra=["-DC15_PART=%d" % k], deps=_DEPS) for k in range(10, 14)],
     runs=[run("c15_p0", shards=5, min_cases={"quick": 2000, "thorough": 4700}),
           run("c15_p1", shards=5, min_cases={"quick": 2000, "thorough": 4700}),
           run("c15_p2", shards=6, min_cases={"quick": 2800, "thorough": 6300}),
           run("c15_p3", shards=5, min_cases={"quick": 2000, "thorough": 4700})]
          + [run("c15_p%d" % k, shards=4, min_cases={"quick": 2000, "thorough": 4700}) for k in range(4, 9)]
-         + [run("c15_p9", shards=4, min_cases={"quick": 294, "thorough": 600})],
+         + [run("c15_p9", shards=4, min_cases={"quick": 294, "thorough": 600})]
+         + [run("c15_p%d" % k, shards=6, min_cases={"quick": 4000, "thorough": 9400}) for k in range(10, 14)],
     require_obs=["correlate_rows.extend_padded.narrow", "convolve_cols_fixed.output_ignore.wide",
                  "correlate_cols.extend_constant.k1", "convolve_rows.output_zero.narrow"],
 )
